@@ -122,7 +122,9 @@ fn states_for(r: &mut Sm, spec: &Spec, n: usize) -> Vec<Vec<f64>> {
 /// Generic over "the compound under test": closures produce results on flat states.
 struct Ops<'a> {
     distance: Box<dyn Fn(&[f64], &[f64]) -> f64 + 'a>,
-    interpolate: Box<dyn Fn(&[f64], &[f64], f64) -> Vec<f64> + 'a>,
+    /// (from, to, t, scratch): the output state initially holds `scratch` - its prior
+    /// content must not matter
+    interpolate: Box<dyn Fn(&[f64], &[f64], f64, &[f64]) -> Vec<f64> + 'a>,
     enforce: Box<dyn Fn(&[f64]) -> Vec<f64> + 'a>,
     satisfies: Box<dyn Fn(&[f64]) -> bool + 'a>,
     sample: Box<dyn Fn(&mut ChaCha8Rng) -> Result<Vec<f64>, String> + 'a>,
@@ -139,9 +141,9 @@ fn compound_ops<'a>(sp: &'a CompoundStateSpace, spec: &'a Spec, erased: bool) ->
                 sp.distance(&sa, &sb)
             }
         }),
-        interpolate: Box::new(move |a, b, t| {
+        interpolate: Box::new(move |a, b, t, scratch| {
             let (sa, sb) = (compound_state(spec, a), compound_state(spec, b));
-            let mut out = sa.clone();
+            let mut out = compound_state(spec, scratch);
             if erased {
                 sp.interpolate_dyn(&sa, &sb, t, &mut out);
             } else {
@@ -241,8 +243,20 @@ fn check_law(ctx: &Ctx, b: &mut Batch, r: &mut Sm, spec: &Spec, ops: &Ops, label
         }
         b.count("unary_checks", 1);
         // binary operations against a few partners
-        for k in 0..6 {
-            let bb = &states[(ia * 7 + k * 13 + 1) % states.len()];
+        for k in 0..8 {
+            // partners: other lattice states, and (k >= 6) a copy of `a` that differs in one
+            // component only, so that some components coincide exactly
+            let mut mixed;
+            let bb: &Vec<f64> = if k < 6 {
+                &states[(ia * 7 + k * 13 + 1) % states.len()]
+            } else {
+                let other = &states[(ia * 5 + k) % states.len()];
+                let ci = (ia + k) % spec.comps.len();
+                mixed = a.clone();
+                let w = spec.comps[ci].kind.width();
+                mixed[offs[ci]..offs[ci] + w].copy_from_slice(&other[offs[ci]..offs[ci] + w]);
+                &mixed
+            };
             b.evaluations += 1;
             let d = (ops.distance)(a, bb);
             let mut acc = 0.0f64;
@@ -256,8 +270,9 @@ fn check_law(ctx: &Ctx, b: &mut Batch, r: &mut Sm, spec: &Spec, ops: &Ops, label
             if !((d - want_d).abs() <= 1e-12 * want_d.abs().max(1e-300)) && !(d == want_d) {
                 rep("distance-law", format!("compound distance {d} != sqrt(sum (w_i d_i)^2) = {want_d}"), a, bb, 0.0);
             }
+            let scratch = &states[(ia * 11 + k * 3 + 5) % states.len()];
             for t in [0.0, 0.3, r.f(), 1.0] {
-                let it = (ops.interpolate)(a, bb, t);
+                let it = (ops.interpolate)(a, bb, t, scratch);
                 let mut want = vec![];
                 for (i, c) in comps.iter().enumerate() {
                     want.extend(c.interpolate(&slice(a, i), &slice(bb, i), t));
@@ -392,14 +407,14 @@ fn check_se(ctx: &Ctx, se3: bool, w: f64, bounds: Option<Vec<(f64, f64)>>, seed:
             Se::Two(s) => s.distance(&mk2(a), &mk2(bb)),
             Se::Three(s) => s.distance(&mk3(a), &mk3(bb)),
         }),
-        interpolate: Box::new(|a, bb, t| match &se {
+        interpolate: Box::new(|a, bb, t, scratch| match &se {
             Se::Two(s) => {
-                let mut o = mk2(a);
+                let mut o = mk2(scratch);
                 s.interpolate(&mk2(a), &mk2(bb), t, &mut o);
                 fl(&o)
             }
             Se::Three(s) => {
-                let mut o = mk3(a);
+                let mut o = mk3(scratch);
                 s.interpolate(&mk3(a), &mk3(bb), t, &mut o);
                 fl(&o)
             }
@@ -439,7 +454,7 @@ fn check_se(ctx: &Ctx, se3: bool, w: f64, bounds: Option<Vec<(f64, f64)>>, seed:
             b.evaluations += 1;
             let t = r.f();
             let same = (ops.distance)(a, bb).to_bits() == (cops.distance)(a, bb).to_bits()
-                && bits_eq(&(ops.interpolate)(a, bb, t), &(cops.interpolate)(a, bb, t))
+                && bits_eq(&(ops.interpolate)(a, bb, t, bb), &(cops.interpolate)(a, bb, t, a))
                 && bits_eq(&(ops.enforce)(a), &(cops.enforce)(a))
                 && (ops.satisfies)(a) == (cops.satisfies)(a);
             if !same {
